@@ -35,3 +35,23 @@ def C02(ctx):
 PROPS = {
     "C02": C02,
 }
+
+
+from . import rules_flow as R  # noqa: E402
+
+
+def _dbg(ctx):
+    f = ctx.facts("default")
+    R.c01_r1(ctx, f)
+    R.c04_r2(ctx, f)
+    R.c05_gate(ctx, f)
+    R.c09_r1(ctx, f)
+    R.c01_r2(ctx, f)
+    R.c04_r1(ctx, f)
+    R.c08_r1(ctx, f)
+    R.c03_r2(ctx, f)
+    R.c11_rules(ctx, f)
+    return dict(level="other", explanation="debug")
+
+
+PROPS["DBG"] = _dbg
